@@ -3,12 +3,20 @@
 // Contracts for package keypem, checked by /verif (bfvc). Comment-only.
 package keypem
 
-// pemPrivKeyOK(b): b contains a PEM block of the private-key type whose body unmarshals to a key.
-// Assumed (definitional): a key is returned only for such input.
-//@ spec fun pemPrivKeyOK(b bytes) bool
+// pemPrivKeyOK(b): b contains a PEM block (the first one) of the private-key type whose body
+// unmarshals to a key. pemFound/pemType/pemBody: encoding/pem.Decode as functions of its input
+// (/verif/specs/stdlib.spec); privPBok: crypto.UnmarshalPrivateKey accepts the bytes.
+//@ spec fun pemPrivKeyOK(b bytes) bool = pemFound(b) && pemType(b) == "LIBP2P PRIVATE KEY" && privPBok(pemBody(b))
 //@ func ParsePrivKeyPem
-//@   trusted abstraction of encoding/pem and key unmarshalling
 //@   ensures ret1 == nil && ret0 != nil ==> pemPrivKeyOK(pemDat)
+//@   ensures ret1 != nil ==> ret0 == nil
+
+// ---- C11: the PEM parsers are total and return a key, nothing, or an error ----
+//@ func ParseKeyPem
+//@   ensures ret2 != nil ==> ret0 == nil && ret1 == nil
+//@   ensures ret2 == nil && ret0 != nil ==> ret1 != nil && pemPrivKeyOK(pemDat)
+//@ func ParsePubKeyPem
+//@   ensures ret1 != nil ==> ret0 == nil
 
 // writes nothing that existed before the call; the encoding is a buffer of its own
 //@ func MarshalPubKeyPem
